@@ -561,6 +561,27 @@ def pack (fmt : String) (vals : List Val) : Except Err Bits :=
     | .error err => .error err
     | .ok toks => packTokens toks vals
 
+/-- `pack([f1, f2, …], *values)` (methods.py:48-55): the token lists of the format strings are joined
+    (`tokens.extend(tkns)`) … -/
+def listTokens : List String → Except Err (List (String × Nat))
+  | [] => .ok []
+  | f :: fs =>
+    match matchStructFmt f with
+    | none => .error .value
+    | some (e, codes) =>
+      match structparser e codes with
+      | .error err => .error err
+      | .ok t =>
+        match listTokens fs with
+        | .error err => .error err
+        | .ok r => .ok (t ++ r)
+
+/-- … and packed by the one loop. -/
+def packList (fmts : List String) (vals : List Val) : Except Err Bits :=
+  match listTokens fmts with
+  | .error err => .error err
+  | .ok toks => packTokens toks vals
+
 /-- `_read_dtype_list` (bits.py:1190) for fixed-length dtypes: read one after the other from `pos`. -/
 def readTokens : List (String × Nat) → Bits → Nat → Except Err (List Val)
   | [], _, _ => .ok []
@@ -903,6 +924,10 @@ def handle (args : List String) : String :=
       match (if vals = "-" then [] else vals.splitOn ",").mapM (valOfWireD? d.length) with
       | some vs => res (fun b => hexOfBytes (toBytes b)) (arrayBuild d vs)
       | none => "bad-op"
+  | ["packl", fmts, vals] =>
+    match valsOfWire? vals with
+    | some vs => res (fun b => hexOfBytes (toBytes b)) (packList (fmts.splitOn ";") vs)
+    | none => "bad-op"
   | ["unpack", fmt, hex] =>
     match bytesOfWire? hex with
     | some d => res valsToWire (unpack fmt (bitsOfBytes d))
